@@ -31,6 +31,7 @@ class Untranslatable(Exception):
 CALLS = {
     "np.cos": ("Trig.cos", 1), "np.sin": ("Trig.sin", 1), "np.sqrt": ("Trig.sqrt", 1), "np.arctan": ("Trig.atan", 1),
     "np.arcsin": ("Trig.asin", 1), "np.arctan2": ("Trig.atan2", 2), "np.abs": ("absOf", 1), "np.sign": ("signOf", 1),
+    "np.floor": ("HasFloor.floor", 1),
 }
 
 
@@ -112,7 +113,7 @@ class Tr:
                 return "(" + CALLS[f][0] + " " + " ".join(self.ex(a) for a in e.args) + ")"
             if f in self.env and not e.keywords:       # a declared function (e.g. rotation.R3 → R3src)
                 return "(" + self.env[f] + " " + " ".join(self.ex(a) for a in e.args) + ")"
-            if f in ("np.array", "_roll_axes") and len(e.args) == 1 and not e.keywords:
+            if f in ("np.array", "_roll_axes", "np.asarray") and len(e.args) == 1 and not e.keywords:
                 return self.ex(e.args[0])
             self.fail(e, "call")
         if isinstance(e, (ast.List, ast.Tuple)):
@@ -151,6 +152,11 @@ def flatten(body: List[ast.stmt], static: Dict[str, str]) -> List[ast.stmt]:
                 and isinstance(st.test.comparators[0], ast.Constant):
             taken = st.body if static[ast.unparse(st.test.left)] == st.test.comparators[0].value else st.orelse
             out += flatten(taken, static)
+            if any(isinstance(x, ast.Return) for x in out):
+                break
+        elif isinstance(st, ast.If) and ast.unparse(st.test) in static and isinstance(static[ast.unparse(st.test)], bool):
+            # a test whose outcome the spec fixes (operand kinds, "val2 is None", the scale guard)
+            out += flatten(st.body if static[ast.unparse(st.test)] else st.orelse, static)
             if any(isinstance(x, ast.Return) for x in out):
                 break
         else:
@@ -248,10 +254,10 @@ def translate_function(src: str, tree: ast.Module, spec: dict) -> str:
     def need(name: str, via: str):
         if name.startswith("call:"):
             f = name[5:]
-            if f in CALLS or f in env or f in ("np.array", "_roll_axes"):
+            if f in CALLS or f in env or f in ("np.array", "_roll_axes", "np.asarray"):
                 return
             raise Untranslatable(f"{where}: call of `{f}` (in {via}) is outside the translated fragment")
-        if name in env or name == "np.pi":
+        if (name in env and (name not in bound or name not in spec.get("rebind_params", ()))) or name == "np.pi":
             return
         if name in bound:
             if name in elsewhere and name not in spec.get("first_binding_only", ()):
@@ -273,6 +279,8 @@ def translate_function(src: str, tree: ast.Module, spec: dict) -> str:
         ret = cmp_
         outputs = ["return" if o == "compare-in-return" else o for o in outputs]
     for o in outputs:
+        if o == "binop-result":
+            continue
         if o == "return":
             if ret is None:
                 raise Untranslatable(f"{where}: no return statement")
@@ -285,8 +293,44 @@ def translate_function(src: str, tree: ast.Module, spec: dict) -> str:
         if n not in needed:
             continue
         lean_n = spec.get("rename", {}).get(n, n)
+        if n in spec.get("rebind_params", ()):
+            lean_n = spec["params"][n]          # the assignment shadows the input under the input's Lean name
         lets.append(f"  let {lean_n} := {tr.ex(v)}")
         tr.env[n] = lean_n
+    if outputs == ["binop-result"]:
+        # what an arithmetic operator returns: NotImplemented, or `<receiver>.from_jds(jd1, jd2, …)` — the kind of the
+        # result is the receiver's (`self`, `other`, or the TimeDeltaArray class looked up in _SCALES)
+        if ret is None:
+            raise Untranslatable(f"{where}: no return statement")
+        if isinstance(ret, ast.Name) and ret.id == "NotImplemented":
+            result = "none"
+        elif isinstance(ret, ast.Call) and isinstance(ret.func, ast.Attribute) and ret.func.attr == "from_jds" and len(ret.args) >= 2:
+            rcv = ast.unparse(ret.func.value)
+            if rcv == "self":
+                is_delta = spec["self_kind"] == "delta"
+            elif rcv == "other":
+                is_delta = spec["other_kind"] == "delta"
+            elif "TimeDeltaArray" in rcv:
+                is_delta = True
+            elif "TimeArray" in rcv:
+                is_delta = False
+            else:
+                raise Untranslatable(f"{where}: receiver of from_jds not understood: `{rcv}`")
+            for a in ret.args[:2]:
+                for m in names_in(a, env):
+                    need(m, "return")
+            lets = []
+            for n, v in binds:
+                if n in needed:
+                    lets.append(f"  let {n} := {tr.ex(v)}")
+                    tr.env[n] = n
+            result = f"some ({'true' if is_delta else 'false'}, {tr.ex(ret.args[0])}, {tr.ex(ret.args[1])})"
+        else:
+            raise Untranslatable(f"{where}: return value not understood: `{ast.unparse(ret)}`")
+        params = " ".join(dict.fromkeys(v for v in spec["params"].values() if v.isidentifier()))
+        doc = f"/-- `{src}` `{spec['func']}` with {spec.get('static')}: the result (is it a duration, jd1, jd2) or `none` for NotImplemented -/"
+        head = f"def {spec['lean']} ({params} : α) : {spec['type']} :="
+        return "\n".join([doc, head] + lets + ["  " + result])
     outs = [tr.ex(ret) if o == "return" else tr.env[o] for o in outputs]
     result = outs[0] if len(outs) == 1 else "(" + ", ".join(outs) + ")"
     params = " ".join(dict.fromkeys(v for v in spec["params"].values() if v.isidentifier() and v not in spec.get("funs", ())))
@@ -378,6 +422,34 @@ SPECS += [
     _hop("_tt2tcg", "tt"), _hop("_tcg2tt", "tcg"), _hop("_gps2tai", "gps"), _hop("_tai2gps", "tai"),
 ]
 
+OPP = {"self.jd1": "a1", "self.jd2": "a2", "other.jd1": "b1", "other.jd2": "b2"}
+
+
+def _binop(cls: str, op: str, other: str, lean: str, mixed: bool = False) -> dict:
+    """one branch of an arithmetic operator of TimeArray / TimeDeltaArray: operand kinds fixed, scale guard fixed"""
+    static = {"self.scale != other.scale": mixed, "isinstance(other, TimeDeltaArray)": other == "delta", "isinstance(other, TimeArray)": other == "time"}
+    return dict(src=TIME, group="time", func=f"{cls}.{op}", lean=lean, static=static, params=OPP, outputs=["binop-result"],
+                self_kind="time" if cls == "TimeArray" else "delta", other_kind=other, type="Option (Bool × α × α)")
+
+
+DFP = {"val": "v", "val2": "v2", "Unit.second2day": "s2d", "Unit.day2second": "d2s", "jd1": "jd1", "jd2": "jd2"}
+SPECS += [
+    # --- _time.py: the arithmetic operators (which parts each result part is built from; what is refused)
+    _binop("TimeArray", "__add__", "delta", "timeAddDeltaSrc"), _binop("TimeArray", "__add__", "time", "timeAddTimeSrc"),
+    _binop("TimeArray", "__sub__", "delta", "timeSubDeltaSrc"), _binop("TimeArray", "__sub__", "time", "timeSubTimeSrc"),
+    _binop("TimeDeltaArray", "__add__", "delta", "deltaAddDeltaSrc"), _binop("TimeDeltaArray", "__add__", "time", "deltaAddTimeSrc"),
+    _binop("TimeDeltaArray", "__sub__", "delta", "deltaSubDeltaSrc"), _binop("TimeDeltaArray", "__sub__", "time", "deltaSubTimeSrc"),
+    _binop("TimeArray", "__add__", "delta", "timeAddMixedSrc", mixed=True), _binop("TimeArray", "__sub__", "delta", "timeSubMixedSrc", mixed=True),
+    _binop("TimeDeltaArray", "__add__", "time", "deltaAddMixedSrc", mixed=True), _binop("TimeDeltaArray", "__sub__", "delta", "deltaSubMixedSrc", mixed=True),
+    # --- the duration formats: value(s) → (jd1, jd2) and back
+    *[dict(src=TIME, group="time", func=f"{c}._to_jds", lean=l + "ToJdsSrc", static={"val2 is None": False},
+           params={k: v for k, v in DFP.items() if k in ("val", "val2", "Unit.second2day")}, rebind_params=("val", "val2"), outputs=["return"], type="α × α")
+      for c, l in (("TimeDeltaJD", "deltaJd"), ("TimeDeltaDay", "deltaDay"), ("TimeDeltaSec", "deltaSec"))],
+    *[dict(src=TIME, group="time", func=f"{c}._from_jds", lean=l + "FromJdsSrc",
+           params={k: v for k, v in DFP.items() if k in ("jd1", "jd2", "Unit.day2second")}, outputs=["return"], type="α")
+      for c, l in (("TimeDeltaJD", "deltaJd"), ("TimeDeltaDay", "deltaDay"), ("TimeDeltaSec", "deltaSec"))],
+]
+
 HEADERS = {
     "geo": ('SourceExprs.lean', '''/- GENERATED by translator/extract_exprs.py from the Python `ast` of the tree under test — do not edit.
 Every definition is the arithmetic of one function of midgard/math/rotation.py, transformation.py, ellipsoid.py or
@@ -397,9 +469,15 @@ midgard/data/_time.py, statement by statement (see the translator for the fragme
 
 namespace Midgard.Generated.SrcTime
 
+/-- `np.floor` -/
+class HasFloor (α : Type) where
+  floor : α → α
+
+instance : HasFloor Rat := ⟨fun q => (q.floor : Rat)⟩
+
 section
 variable {α : Type} [Add α] [Sub α] [Mul α] [Div α] [Neg α] [Zero α] [One α] [OfScientific α]
-  [LT α] [LE α] [DecidableRel (α := α) (· < ·)] [DecidableRel (α := α) (· ≤ ·)]
+  [LT α] [LE α] [DecidableRel (α := α) (· < ·)] [DecidableRel (α := α) (· ≤ ·)] [HasFloor α]
 ''', "Midgard.Generated.SrcTime"),
 }
 
